@@ -2,7 +2,7 @@
    elementwise operations (arithmetic, comparison, unary) in all option modes.
    Elements are small integers, on which every modelled scalar operation is exact in every
    numeric element type; element-type specific arithmetic is the subject of C17. *)
-From TV Require Import Base Index AP Iter Mem Spec Guards Run Ops Reduce.
+From TV Require Import Base Index AP Iter Mem Spec Guards Run Ops Reduce Shapeops.
 
 (* scalar operations by code *)
 Definition zbin (code : Z) (x y : Z) : cres Z :=
@@ -39,7 +39,10 @@ Inductive zop :=
 | ZCmpS (code : Z) (t : nat) (s : Z) (lft same : bool) (m : cmode)
 | ZUn (code : Z) (a : nat) (m : mode)
 | ZReduce (code : Z) (a : nat) (axes : list Z) (refused : bool)     (* 0 sum, 1 min, 2 max *)
-| ZArg (code : Z) (a : nat) (axis : Z) (refused : bool).            (* 0 argmax, 1 argmin; axis -1 = all *)
+| ZArg (code : Z) (a : nat) (axis : Z) (refused : bool)             (* 0 argmax, 1 argmin; axis -1 = all *)
+| ZStack (t : nat) (axis : Z) (others : list nat)
+| ZConcat (t : nat) (axis : Z) (others : list nat)
+| ZRepeat (t : nat) (axis : Z) (reps : list Z).
 
 Definition zred (code : Z) : Z -> Z -> Z :=
   if code =? 0 then Z.add else if code =? 1 then Z.min else Z.max.
@@ -84,6 +87,21 @@ Definition zstep_model (σ : store Z) (o : zop) : store Z * outcome Z :=
     | Ok (sh, data) => let '(σ', t) := new_result σ sh data in (σ', RNew Z t)
     | Err => (σ, RErr Z)
     | Panic => (σ, RPanic Z)
+    end
+  | ZStack t axis others =>
+    match m_stack Z 0 σ t axis others with
+    | Ok (σ', d) => let '(σ'', t') := add_t Z σ' d in (σ'', RNew Z t')
+    | Err => (σ, RErr Z) | Panic => (σ, RPanic Z)
+    end
+  | ZConcat t axis others =>
+    match m_concat Z 0 σ t axis others with
+    | Ok (σ', d) => let '(σ'', t') := add_t Z σ' d in (σ'', RNew Z t')
+    | Err => (σ, RErr Z) | Panic => (σ, RPanic Z)
+    end
+  | ZRepeat t axis reps =>
+    match m_repeat Z 0 σ t axis reps with
+    | Ok (σ', d) => let '(σ'', t') := add_t Z σ' d in (σ'', RNew Z t')
+    | Err => (σ, RErr Z) | Panic => (σ, RPanic Z)
     end
   end.
 
@@ -183,6 +201,32 @@ Definition zstep_spec (ς : sstate Z) (o : zop) : option (sstate Z * outcome Z) 
         let '(sh, vs) := spec_arg_vals Z 0 (zbetter code) ς x axis in
         spec_vals_deliver ς a sh (map (fun v => Some v) vs) (0, O) false
     end
+  | ZStack t axis others =>
+    let xs := flat_map (fun i => match sget Z ς i with Some x => [x] | None => [] end) (t :: others) in
+    if negb (Nat.eqb (length xs) (S (length others))) then None else
+    match spec_stack_vals Z 0 ς xs axis with
+    | Some (sh, vs) => spec_vals_deliver ς t sh (map (fun v => Some v) vs) (0, O) false
+    | None => Some (ς, RErr Z)
+    end
+  | ZConcat t axis others =>
+    let xs := flat_map (fun i => match sget Z ς i with Some x => [x] | None => [] end) (t :: others) in
+    if negb (Nat.eqb (length xs) (S (length others))) then None else
+    match spec_concat_vals Z 0 ς xs axis with
+    | Some (sh, vs) => spec_vals_deliver ς t sh (map (fun v => Some v) vs) (0, O) false
+    | None => Some (ς, RErr Z)
+    end
+  | ZRepeat t axis reps =>
+    match sget Z ς t with
+    | None => None
+    | Some x =>
+      (* repeating a rank-1 vector (or a scalar) along axis 1 is the library's own documented
+         extension; NumPy has no such axis *)
+      if ((zlen (s_shape x) <=? 1) && (axis =? 1)) || (zlen (s_shape x) =? 0) then None else
+      match spec_repeat_vals Z 0 ς x axis reps with
+      | Some (sh, vs) => spec_vals_deliver ς t sh (map (fun v => Some v) vs) (0, O) false
+      | None => Some (ς, RErr Z)
+      end
+    end
   end.
 
 Definition zguard (σ : store Z) (o : zop) : gclass :=
@@ -240,6 +284,32 @@ Definition zguard (σ : store Z) (o : zop) : gclass :=
                                 if (axis =? -1) && (is_materializable d || negb (list_eqb (str (d_ap d)) (calc_strides (shp (d_ap d)))))
                                 then GFlatRawWindow else GOk
                               | _ => GOk end
+                | g => g end
+    | [] => GOther
+    end
+  | ZStack t _ others | ZConcat t _ others =>
+    let ds := tens (t :: others) in
+    match filter (fun d => match guard_read d with GOk => false | _ => true end) ds with
+    | d :: _ => guard_read d
+    | [] => if existsb (fun d => is_cm (ord (d_ap d))) ds then GOrderMix
+            else match o, ds with
+                 | ZStack _ _ _, d0 :: _ =>
+                   if negb (forallb (fun d => list_eqb (shp (d_ap d)) (shp (d_ap d0))) ds) then GShapeMisfit else GOk
+                 | _, _ => GOk
+                 end
+    end
+  | ZRepeat t axis reps =>
+    match tens [t] with
+    | d :: _ => match guard_read d with
+                | GOk => if is_cm (ord (d_ap d)) then GOrderMix
+                         else if is_materializable d || negb (list_eqb (str (d_ap d)) (calc_strides (shp (d_ap d)))) then GView
+                         else if is_vector (shp (d_ap d)) && (2 <=? zlen (shp (d_ap d))) then GVectorAxes
+                         else match shape_repeat (shp (d_ap d)) axis reps with
+                              | Ok (ns, _, _, _) =>
+                                if negb (pos_shapeb ns) then GEmptyTensor
+                                else if is_vector ns && (2 <=? zlen ns) then GVectorAxes else GOk
+                              | _ => GOk
+                              end
                 | g => g end
     | [] => GOther
     end
